@@ -91,7 +91,8 @@ class VcfWriter:
                 "Position transform must return an array of the same length"
             )
         self.contig_length = max(
-            1, int(position_transform([tree_sequence.sequence_length])[0])
+            1,
+            int(position_transform(np.array([tree_sequence.sequence_length]))[0]),
         )
         if len(self.transformed_positions) > 0:
             # Arguably this should be last_pos + 1, but if we hit this
